@@ -286,9 +286,9 @@ theorem inv1_step {c : Cfg} (hw : c.wiring = Wiring.std) (hwf : WfCfg c) {s s' :
       exact inv1_worker_same h hj (by simp [W.job?]) rfl rfl rfl rfl rfl
   | workerEnd w o cancel =>
     obtain ⟨j, hj, rfl⟩ := inv_workerEnd hs
-    have hab : (afterBody s j o cancel).loop = s.loop ∧ (afterBody s j o cancel).ws = s.ws ∧
-        (afterBody s j o cancel).donec = s.donec ∧ (afterBody s j o cancel).enq = s.enq ∧
-        (afterBody s j o cancel).caller = s.caller := by
+    have hab : (afterBody c s j o cancel).loop = s.loop ∧ (afterBody c s j o cancel).ws = s.ws ∧
+        (afterBody c s j o cancel).donec = s.donec ∧ (afterBody c s j o cancel).enq = s.enq ∧
+        (afterBody c s j o cancel).caller = s.caller := by
       unfold afterBody; split <;> simp
     refine inv1_worker_same h hj (y := if o = .goexit then .dying j else .posting j (outcomeRes o)) ?_ ?_ ?_ ?_ ?_ ?_
     · split <;> simp [W.job?]
@@ -307,7 +307,7 @@ theorem inv1_step {c : Cfg} (hw : c.wiring = Wiring.std) (hwf : WfCfg c) {s s' :
     obtain ⟨hj, _, rfl⟩ := inv_workerExit hs
     exact inv1_worker_same h hj (by simp [W.job?]) rfl rfl rfl rfl rfl
   | cancel =>
-    obtain ⟨_, rfl⟩ := inv_cancel hs
+    obtain ⟨_, _, rfl⟩ := inv_cancel hs
     exact inv1_frame h rfl rfl rfl rfl rfl
 
 end Sched
